@@ -146,6 +146,153 @@ func ApplyEdits(root *json.Object, p *presence.Presence, edits []Edit) {
 			}
 		case "pset":
 			p.Set(e.Key, e.S)
+		case "xtxt", "xelm", "xdel", "xmrg", "xsty", "xuns", "xspl":
+			if t := root.GetTree("x"); t != nil {
+				applyTreeEdit(t, e)
+			}
+		}
+	}
+}
+
+// treeTokens splits the XML of a tree into one token per index unit: every tag
+// and every character is one token (the tree of the histories holds ASCII text
+// only). Token 0 is the root's opening tag; tree index k is the gap before token k+1.
+func treeTokens(xml string) []string {
+	var res []string
+	for i := 0; i < len(xml); i++ {
+		if xml[i] == '<' {
+			j := i
+			for j < len(xml) && xml[j] != '>' {
+				j++
+			}
+			res = append(res, xml[i:j+1])
+			i = j
+		} else {
+			res = append(res, xml[i:i+1])
+		}
+	}
+	return res
+}
+
+func isOpen(tok string) bool  { return len(tok) > 1 && tok[0] == '<' && tok[1] != '/' }
+func isClose(tok string) bool { return len(tok) > 1 && tok[0] == '<' && tok[1] == '/' }
+
+// treeDepths returns, for every tree index 0..n, the nesting depth of the gap
+// (1 = directly under the root) .
+func treeDepths(toks []string) []int {
+	n := len(toks) - 2 // indices 0..n
+	if n < 0 {
+		return nil
+	}
+	d := make([]int, n+1)
+	depth := 1
+	d[0] = 1
+	for k := 1; k <= n; k++ {
+		tok := toks[k]
+		if isOpen(tok) {
+			depth++
+		} else if isClose(tok) {
+			depth--
+		}
+		d[k] = depth
+	}
+	return d
+}
+
+func pickIdx(cands []int, sel int) (int, bool) {
+	if len(cands) == 0 {
+		return 0, false
+	}
+	return cands[mod(sel, len(cands))], true
+}
+
+// applyTreeEdit performs one tree edit; positions are chosen among the indices
+// where the edit is well-formed (text only inside a paragraph, paragraphs only
+// under the root, deletions within one parent, a merge across exactly one
+// paragraph boundary), so that the call itself is valid upstream usage.
+func applyTreeEdit(t *json.Tree, e Edit) {
+	toks := treeTokens(t.ToXML())
+	depths := treeDepths(toks)
+	if depths == nil {
+		return
+	}
+	n := len(depths) - 1
+	var under1, under2 []int
+	for k := 0; k <= n; k++ {
+		switch depths[k] {
+		case 1:
+			under1 = append(under1, k)
+		case 2:
+			under2 = append(under2, k)
+		}
+	}
+	switch e.K {
+	case "xtxt":
+		if k, ok := pickIdx(under2, e.I); ok {
+			t.Edit(k, k, &json.TreeNode{Type: "text", Value: e.S}, 0)
+		}
+	case "xelm":
+		if k, ok := pickIdx(under1, e.I); ok {
+			t.Edit(k, k, &json.TreeNode{Type: "p", Children: []json.TreeNode{{Type: "text", Value: e.S}}}, 0)
+		}
+	case "xdel":
+		// a range inside one paragraph (characters), or whole paragraphs under the root
+		if e.V%3 == 0 {
+			// whole paragraphs: from a depth-1 gap to a later depth-1 gap, keeping at least one
+			if len(under1) > 2 {
+				a := mod(e.I, len(under1)-1)
+				if !(a == 0 && len(under1) == 2) {
+					t.Edit(under1[a], under1[a+1], nil, 0)
+				}
+			}
+			return
+		}
+		if k, ok := pickIdx(under2, e.I); ok {
+			// extend to the right while staying in the same paragraph (no tag crossed)
+			to := k
+			for to < n && to-k < 1+mod(e.J, 3) && !isOpen(toks[to+1]) && !isClose(toks[to+1]) {
+				to++
+			}
+			if to > k {
+				t.Edit(k, to, nil, 0)
+			}
+		}
+	case "xmrg":
+		// delete "</p><p>": from just before a closing tag at depth 2 to just after the next opening tag
+		var cands []int
+		for k := 0; k+2 <= n; k++ {
+			if depths[k] == 2 && isClose(toks[k+1]) && k+2 < len(toks) && isOpen(toks[k+2]) {
+				cands = append(cands, k)
+			}
+		}
+		if k, ok := pickIdx(cands, e.I); ok {
+			t.Edit(k, k+2, nil, 0)
+		}
+	case "xspl":
+		if k, ok := pickIdx(under2, e.I); ok {
+			t.Edit(k, k, nil, 1)
+		}
+	case "xsty", "xuns":
+		// a range that starts just before a paragraph's opening tag
+		var cands []int
+		for _, k := range under1 {
+			if k < n && isOpen(toks[k+1]) {
+				cands = append(cands, k)
+			}
+		}
+		if k, ok := pickIdx(cands, e.I); ok {
+			to := k + 1
+			if e.J%2 == 1 {
+				// up to the end of a later paragraph
+				if l, ok := pickIdx(under1, e.J); ok && l > k {
+					to = l
+				}
+			}
+			if e.K == "xsty" {
+				t.Style(k, to, map[string]string{e.Key: e.S})
+			} else {
+				t.RemoveStyle(k, to, []string{e.Key})
+			}
 		}
 	}
 }
@@ -167,6 +314,11 @@ func setupEdits(root *json.Object, what string) {
 			root.SetNewCounter("c", int64(0))
 		case 'n':
 			root.SetNewCounter("n", 0)
+		case 'x':
+			root.SetNewTree("x", json.TreeNode{Type: "doc", Children: []json.TreeNode{
+				{Type: "p", Children: []json.TreeNode{{Type: "text", Value: "ab"}}},
+				{Type: "p", Children: []json.TreeNode{{Type: "text", Value: "cd"}}},
+			}})
 		}
 	}
 }
@@ -747,4 +899,12 @@ func (r *Run) Close() {
 			rp.A.Close()
 		}
 	}
+}
+
+// SetupEdits, GenEdit and SafeUpdate are the exported forms used by the in-process engines.
+func SetupEdits(root *json.Object, what string) { setupEdits(root, what) }
+
+// SafeUpdate runs an Update whose callback may fail or panic.
+func SafeUpdate(d *document.Document, edits []Edit, fail string) (error, bool) {
+	return safeUpdate(d, edits, fail)
 }
